@@ -105,5 +105,8 @@ def loader_check(prop, tier, seed, replay_path, mask, model_cfg, suites, require
     write_evidence(prop, tier, seed, {
         "states": mc["states"], "transitions": mc["transitions"], "traces_validated_against_impl": total, "samples": samples[:3],
         "model": {"module": "spec/MC_Loader.tla", "config": model_cfg, "depth": mc["depth"], "sequences_replayed": mc["edges"]},
-        "input_classes": tagc, "loader_outcomes": outc, "exhaustive": False}, assumptions, time.time() - t0, len(rep.new))
+        "input_classes": tagc, "loader_outcomes": outc, "exhaustive": False,
+        # unbounded structural argument (bracket automaton, any input length); thorough tier, extra evidence
+        **({"apalache_inductive_invariant": apalache_check("LoaderInv.tla")} if tier == "thorough" and prop == "C05" else {})},
+        assumptions, time.time() - t0, len(rep.new))
     return rc
